@@ -82,10 +82,17 @@ def independent_failure(fmt, text, lookup):
         item = ref_lookup(doc, lookup)
     except Exception:  # noqa
         return True
+    def bad_keys(v):
+        if isinstance(v, dict):
+            return any(not isinstance(k, str) or bad_keys(x) for k, x in v.items())
+        if isinstance(v, list):
+            return any(bad_keys(x) for x in v)
+        return False
+
     if isinstance(item, dict):
-        return any(not isinstance(k, str) for k in item)
+        return bad_keys(item)
     if isinstance(item, list):
-        return any(not isinstance(x, dict) or any(not isinstance(k, str) for k in x) for x in item)
+        return any(not isinstance(x, dict) or bad_keys(x) for x in item)
     return True
 
 
@@ -195,6 +202,13 @@ def state_faults(sc, rng):
             t = yaml_wrap(lookup if where == "own" or lookup else None, "- {1: a, ~: b, 2.5: c}")
             if independent_failure(fmt, t, lookup):
                 yield "non_string_keys", "int_null_float_keys", pos, where, mod({"text": t})
+            # a sample with integer keys that is the twin of a well-formed sample delivered just before it (the faulty
+            # sample equals a good one after key coercion: anything that de-duplicates or caches by a coerced form
+            # would mask it)
+            t = yaml_wrap(lookup if where == "own" or lookup else None,
+                          "- {codes: {'200': ok, '404': nf}, n: 1}\n- {codes: {200: ok, 404: nf}, n: 1}")
+            if independent_failure(fmt, t, lookup):
+                yield "non_string_keys", "int_keys_twin_of_good_sample", pos, where, mod({"text": t})
 
 
 ARGV_FAULTS = [
@@ -272,7 +286,7 @@ def run(ctx):
     distinct, samples = set(), []
     evaluations = 0
     stats = {"bases": 0, "bases_dropped_library_raises": 0, "controls": 0, "crash_between_first_and_last_class": 0,
-             "fault_on_last_of_several": 0, "glob_member_faulty": 0, "validated_real": 0}
+             "fault_on_last_of_several": 0, "glob_member_faulty": 0, "validated_real": 0, "locale_runs": 0}
     with Pool(ctx.jobs, instrument=True) as pool:
         # ---- bases and fault-free controls
         bases = []
@@ -284,7 +298,7 @@ def run(ctx):
             i += 1
             if len(targets(sc)) >= 2 or rng.random() < 0.15:
                 cand.append(sc)
-        orc = [unwrap(x) for x in pool.map("scenario:job_oracle", [{"scenario": s, "glob_perm": None} for s in cand], timeout=90)]
+        orc = [unwrap(x) for x in pool.map("scenario:job_oracle", [{"scenario": s} for s in cand], timeout=90)]
         for sc, o in zip(cand, orc):
             if "text" in o and len(bases) < n_base:
                 bases.append(sc)
@@ -346,8 +360,12 @@ def run(ctx):
                 rec0 = control[(bi, mode)][0]
                 total = rec0.get("line_events") or 0
                 limit = total
-                if mode != "stdout":
-                    limit = next((e[4] for e in rec0["events"] if e[1] == "open_out" and len(e) > 4 and e[4]), total)
+                if mode != "stdout" and rec0.get("out_changed_at"):
+                    # the -o target was first seen modified at line event out_changed_at, i.e. by the line whose event
+                    # number is out_changed_at - 1: crash points are placed up to (and including) that line's event,
+                    # which fires before the line executes.  Measured on the file itself, so it does not depend on how
+                    # the CLI opens it.
+                    limit = max(1, rec0["out_changed_at"] - 1)
                 if limit < 2:
                     continue
                 marks = rec0.get("marks", {})
@@ -413,6 +431,8 @@ def run(ctx):
                               f"fault {kind}/{detail} at {pos} ({where}), mode {mode}: {bad}; exit {rec['status']} {rec['exc']}")
         if not quick and not rep.violations:
             stats["validated_real"] = real_validation(ctx, rep, cases, recs)
+        if not rep.violations:
+            stats["locale_runs"] = locale_layer(ctx, rep, pool, bases, n=int((16 if quick else 300) * ctx.scale))
     not_fired = [k for k in kinds_planned if not kinds_fired.get(k)]
     return rep.finish({
         "evaluations": evaluations,
@@ -423,14 +443,16 @@ def run(ctx):
                 "distinct by (base, kind, detail, position, mode, crash point)",
         "samples": samples,
         "exhaustive": False,
-        "fault_kinds_planned": kinds_planned, "fault_kinds_fired": kinds_fired,
+        "fault_kinds_planned": dict(kinds_planned, environment_locale_C=stats["locale_runs"]),
+        "fault_kinds_fired": dict(kinds_fired, environment_locale_C=stats["locale_runs"]),
         "reach_probes": stats, "reach_warnings": ["fault kind never fired: " + k for k in not_fired],
         "traces_validated_against_impl": stats["validated_real"],
         "simulated_time": "one simulated clock read per successful run (header); irrelevant to this property",
     }, assumptions=[
         "a torn/flipped file counts as a fault only if an independent parse (json / ruamel.yaml / configparser) + lookup "
         "does not yield an object or list of objects with string keys",
-        "crash points are placed before the -o file is opened (the statement covers generation, not a crash during the write)",
+        "crash points are placed before the line that first modifies the -o file (measured in a dry run by watching the "
+        "file; the statement covers generation, not a crash during the write)",
         "for write errors only 'exit 0 implies complete text' is checked",
     ])
 
@@ -494,6 +516,89 @@ def real_validation(ctx, rep, cases, recs):
             break
         if (real["status"] == 0) != (recs[ci]["status"] == 0):
             raise HarnessError(f"in-process status emulation disagrees with the real process for {kind}/{detail}")
+    return len(results)
+
+
+def locale_layer(ctx, rep, pool, bases, n):
+    """Environment fault: the real CLI process under a non-UTF-8 locale (LC_ALL=C, UTF-8 mode off) with -o pointing at
+    an existing sentinel file, ASCII-only arguments and input text, non-ASCII generated code (--no-unidecode, keys given
+    as \\u escapes).  This is a fault-free control in another environment: the run must exit 0 and the file must hold
+    the complete UTF-8 text (header + library text)."""
+    import os
+    import shutil
+    import subprocess
+    import tempfile
+    from concurrent.futures import ThreadPoolExecutor
+    from .. import loader
+    from ..pool import PYTHON
+    picks = []
+    for sc in bases:
+        if sc["format"] != "json" or len(picks) >= n or any(a.get("glob") for a in sc["args"]):
+            continue  # (real directory order is not under control here: explicit paths only)
+        c = copy.deepcopy(sc)
+        c["options"]["convert_unicode"] = False
+        ok = True
+        for rel, f in c["files"].items():
+            try:
+                doc = json.loads(f["text"])
+            except ValueError:
+                ok = False
+                break
+            if isinstance(doc, dict):
+                doc["zusätzlich_größe"] = 1
+            elif isinstance(doc, list) and doc and isinstance(doc[0], dict):
+                doc[0] = dict(doc[0], **{"zusätzlich_größe": 1})
+            f["text"] = json.dumps(doc, ensure_ascii=True)
+        if ok and all(a.isascii() for a in cli_spec(c)["argv"]):
+            # ASCII-only arguments and input text: nothing in the environment can make reading or the header fail
+            picks.append(with_mode(c, "o_present"))
+    if not picks:
+        return 0
+    oracles = [unwrap(x) for x in pool.map("scenario:job_oracle", [{"scenario": c} for c in picks], timeout=90)]
+
+    def one(c):
+        scratch = tempfile.mkdtemp(prefix="j2m-c17l-", dir="/dev/shm" if os.path.isdir("/dev/shm") else None)
+        try:
+            spec = cli_spec(c)
+            for rel, f in spec["files"].items():
+                p = os.path.join(scratch, rel)
+                os.makedirs(os.path.dirname(p), exist_ok=True)
+                with open(p, "wb") as fh:
+                    fh.write(f.get("text", "").encode("utf-8"))
+            out_path = spec["out_path"].replace("{DIR}", scratch)
+            with open(out_path, "wb") as fh:
+                fh.write(SENTINEL)
+            argv = [a.replace("{DIR}", scratch) for a in spec["argv"]]
+            env = dict(os.environ, PYTHONPATH=loader.repo_dir(), LC_ALL="C", LANG="C", PYTHONUTF8="0", PYTHONCOERCECLOCALE="0")
+            for k in ("TRAVIS", "FORCE_COVERAGE", "PYTHONIOENCODING"):
+                env.pop(k, None)
+            p = subprocess.run([PYTHON, "-m", "json_to_models", *argv], capture_output=True, env=env, timeout=180, cwd=scratch)
+            with open(out_path, "rb") as fh:
+                data = fh.read()
+            return argv, p.returncode, data, p.stderr.decode("utf-8", "replace")[-600:]
+        finally:
+            shutil.rmtree(scratch, ignore_errors=True)
+
+    with ThreadPoolExecutor(max_workers=max(2, ctx.jobs)) as ex:
+        results = list(ex.map(one, picks))
+    for c, o, (argv, rc, data, stderr) in zip(picks, oracles, results):
+        bad = None
+        if "text" not in o:
+            continue
+        if rc != 0:
+            bad = "fault-free-run-fails" + ("+existing-output-modified" if data != SENTINEL else "")
+        else:
+            try:
+                head, rest = split_header(data.decode("utf-8"))
+                if not head or rest != o["text"]:
+                    bad = "o-file-incomplete"
+            except UnicodeDecodeError:
+                bad = "o-file-incomplete"
+        if bad:
+            rep.violation("locale-C:" + bad, {"scenario": c, "mode": "o_present", "fault": {"kind": "environment", "detail": "LC_ALL=C PYTHONUTF8=0"},
+                                              "argv": argv, "status": rc, "stderr": stderr, "clause": [bad]},
+                          f"real CLI process under LC_ALL=C (UTF-8 mode off), exit {rc}: {bad}")
+            break
     return len(results)
 
 
